@@ -22,6 +22,9 @@ CONSTANTS Depth,
           BugSharedInstance,   \* TRUE: all infinite screens share one module-level generator
           BugShCoupled,        \* TRUE: the sub-harmonics come from a second generator made from the same integer seed (pre-2981c8d)
           BugCloneShares,      \* TRUE: a deep copy of a screen keeps drawing from the original's generator
+          BugRowsFromSeed,     \* TRUE: the initial screen comes from a SECOND generator made from the same seed; the rows start at its head again
+          ChildInit,           \* draw protocol (Impl, not Def): TRUE = the initial screen is drawn from a child stream spawned from the
+                               \* object's generator, the rows from the generator itself.  Every property below must hold under both protocols.
           Focus,               \* "all", or "objects": only instance actions (simulation that concentrates on instance isolation)
           Emit
 
@@ -93,13 +96,15 @@ FtShGen(p) ==      \* one shared stream: the nested call draws first, then the s
     /\ UNCHANGED <<glob, obj, nfresh>>
 
 \* ---- infinite screens
+InitStream(o) == IF ChildInit THEN <<"child", ObjCfg(o).seed, 1>> ELSE IF BugSharedInstance THEN <<"module", 0>> ELSE SeedStream(ObjCfg(o).seed)
+PosAfterInit(o) == IF ChildInit \/ BugRowsFromSeed THEN 0 ELSE 2 * ObjCfg(o).slen * ObjCfg(o).slen
 ObjStream(o) == IF BugSharedInstance THEN <<"module", 0>> ELSE SeedStream(ObjCfg(o).seed)
 SharedPos == IF BugSharedInstance THEN obj["o1"].pos + obj["o2"].pos + obj["o3"].pos + obj["o4"].pos + obj["o5"].pos ELSE 0
 NewScreen(o) ==
     /\ ~obj[o].made
     /\ LET c == ObjCfg(o)  start == IF BugSharedInstance THEN SharedPos ELSE 0
-       IN  /\ obj' = [obj EXCEPT ![o] = [made |-> TRUE, pos |-> 2*c.slen*c.slen, rows |-> 0]]
-           /\ Log([a |-> "new", o |-> o, again |-> FALSE, prov |-> << <<ObjStream(o), start, start + 2*c.slen*c.slen>> >>])
+       IN  /\ obj' = [obj EXCEPT ![o] = [made |-> TRUE, pos |-> PosAfterInit(o), rows |-> 0]]
+           /\ Log([a |-> "new", o |-> o, again |-> FALSE, prov |-> << <<InitStream(o), start, start + 2*c.slen*c.slen>> >>])
     /\ UNCHANGED <<glob, gen, nfresh>>
 AddRow(o) ==
     /\ obj[o].made
@@ -112,8 +117,8 @@ AddRow(o) ==
 Reinit(o) ==
     /\ obj[o].made /\ ~BugSharedInstance
     /\ LET c == ObjCfg(o)
-       IN  /\ obj' = [obj EXCEPT ![o] = [made |-> TRUE, pos |-> 2*c.slen*c.slen, rows |-> 0]]
-           /\ Log([a |-> "new", o |-> o, again |-> TRUE, prov |-> << <<ObjStream(o), 0, 2*c.slen*c.slen>> >>])
+       IN  /\ obj' = [obj EXCEPT ![o] = [made |-> TRUE, pos |-> PosAfterInit(o), rows |-> 0]]
+           /\ Log([a |-> "new", o |-> o, again |-> TRUE, prov |-> << <<InitStream(o), 0, 2*c.slen*c.slen>> >>])
     /\ UNCHANGED <<glob, gen, nfresh>>
 \* copy.deepcopy(src) -> dst (twins only, so that dst's later rows are keyed like src's): dst is a screen instance of its own,
 \* with its own generator at the position src had reached
@@ -175,6 +180,13 @@ SeedsDiffer == \A i, j \in 1..Len(hist) :
 NoDeviateUsedTwice == \A i \in 1..Len(hist) : \A k1, k2 \in 1..Len(hist[i].prov) :
     (k1 < k2 /\ hist[i].prov[k1][1] = hist[i].prov[k2][1]) =>
         (hist[i].prov[k1][3] <= hist[i].prov[k2][2] \/ hist[i].prov[k2][3] <= hist[i].prov[k1][2])
+\* over an object's life (since its last (re)initialisation) no deviate is used twice either: the innovation of a row is independent
+\* of the phase that is already there.  Clones continue the original's stream and are compared with it by Reproducible, not here.
+LastNew(i) == LET S == { k \in 1..i : hist[k].a \in {"new", "clone"} /\ hist[k].o = hist[i].o } IN IF S = {} THEN 0 ELSE CHOOSE k \in S : \A m \in S : m <= k
+ObjectNeverReusesADeviate == \A i, j \in 1..Len(hist) :
+    (i < j /\ hist[i].a \in {"new", "add_row"} /\ hist[j].a = "add_row" /\ hist[i].o = hist[j].o /\ LastNew(j) <= i /\ ~BugSharedInstance /\ ~BugCloneShares) =>
+        \A k1 \in 1..Len(hist[i].prov), k2 \in 1..Len(hist[j].prov) :
+            hist[i].prov[k1][1] = hist[j].prov[k2][1] => (hist[i].prov[k1][3] <= hist[j].prov[k2][2] \/ hist[j].prov[k2][3] <= hist[i].prov[k1][2])
 \* seeded generation never reads or advances the global stream
 GlobalUntouched == \A i \in 1..Len(hist) :
     (hist[i].a \in {"ft", "ftsh", "new", "add_row"}) => \A k \in 1..Len(hist[i].prov) : hist[i].prov[k][1][1] # "global"
